@@ -38,6 +38,43 @@ def run(rep, tier, seed, replay):
     findings, _ = common.load_findings("C02")
     finding_ids = {f["id"] for f in findings}
     h = common.harness()
+    # ---- where the walk starts: "the glob replaces the base directory, as with path joining". For a family of bases x
+    # globs (no file system access) the root of the walk must be the base joined with the prefix that partition()
+    # reports, and root, pivot and component programs must be the model's
+    if replay is None:
+        import random as _r
+        rng = _r.Random(seed + 2)
+        bases = ["", "x", "x/", "/x", "/", ".", "..", "x/y", "/x/y/", "./x"]
+        globs = ["/**", "/**/a", "/a/**", "/a/b/*.txt", "a/**", "a/b/*", "**", "*", "", "a", "../a/*", "./a/*", "a/../b/*", "/", "/a", "{a}/b/*",
+                 "<a/:2>*", "(?i)a/b*", "a/**/b/*", "/**/{a,b}", "a/b", "/a/{b,c}/**", "[a]/b/*"]
+        globs += [c.expr for c in rng.sample(cases, min(len(cases), 120)) if "@ROOT" not in c.expr]
+        pairs = [(b, g) for g in dict.fromkeys(globs) for b in (bases if len(g) < 14 else rng.sample(bases, 3))]
+        m = common.model()
+        wi = h.ask(["WP %s %s" % (hx(b), hx(g)) for b, g in pairs])
+        wm = m.ask(["WP %s %s" % (hx(b), hx(g)) for b, g in pairs])
+        rep.evaluations += len(pairs)
+        for (b, g), a, mo in zip(pairs, wi, wm):
+            if a in ("globerr",) or not a.startswith("root="):
+                rep.stats["anchor:" + a.split(" ")[0]] += 1
+                continue
+            fa = dict(x.split("=", 1) for x in a.split(" ") if "=" in x)
+            rep.traces += 1
+            if not a.startswith(mo):
+                rep.stats["correspondence-broken"] += 1
+                rep.violation("correspondence", "anchor: root of the walk, pivot and component programs vs the walk model", {"base": b, "glob": g, "what": "anchor"}, impl=a[:300], model=mo[:300])
+            if fa.get("joined") != "same":
+                rep.violation("oracle", "the walk of glob %r from base %r starts at %r, not at the base joined with the glob's prefix %r" % (
+                    g, b, unhx(fa.get("root", "-")), unhx(fa.get("joined", "DIFF<->")[5:-1])), {"base": b, "glob": g, "what": "anchor"}, impl=a[:200])
+            else:
+                rep.stats["anchor: root = base joined with the partition prefix"] += 1
+        # a rooted tree wildcard walks the REAL file system from its root, whatever the base: compared (to a small depth)
+        # with the path walk of `/` filtered by is_match
+        real = [("/**", "/nonexistent-base", 0), ("/**", "", 1), ("/**/tmp", "x", 1), ("/**/*.d", "", 1), ("/**/{tmp,etc}", "/tmp", 1)]
+        for (g, b, mx), line in zip(real, h.ask(["WR %s %s %d" % (hx(g), hx(b), mx) for g, b, mx in real])):
+            if line.startswith("same"):
+                rep.stats["rooted tree wildcard: real walk from / = path walk of / filtered"] += 1
+            else:
+                rep.violation("oracle", "walking the rooted glob %r from base %r does not yield the matching entries beneath / (to depth %d): %s" % (g, b, mx, line), {"base": b, "glob": g, "max": mx, "what": "real-rooted-walk"}, impl=line[:200])
     reqs, owner = [], []
     for k, (c, t) in enumerate(zip(cases, twins)):
         walklib.stats_for(rep, c)
